@@ -33,6 +33,10 @@ func big() Bounds {
 
 var B = smallB
 
+// eqProtoArrays: the comparison in progress is of a value decoded from the
+// repeated-field form (set by the generated Eq methods from their pm argument).
+var eqProtoArrays bool
+
 // Focus selects which top-level field of the root struct gets the larger
 // (thorough) bounds; -1: none. The thorough tier explores one variant per
 // field, so the cost grows with the number of fields rather than with the
